@@ -84,6 +84,7 @@ package allocation
 //@ func (*Allocation).AddPermission
 //@   requires allocWF(a) && permTimers(a)
 //@   requires perms != nil && perms.lifetimeTimer == nil && perms.log != nil
+//@   requires [C03:authed] authOK && a.userID == authUser
 //@   requires [C01:granted] granted[ipKey(perms.Addr)]
 //@   requires [C01:family] famOK(ipOf(perms.Addr), int(a.addressFamily))
 //@   ensures [C07:installed] has(a.permissions, ipKey(perms.Addr))
@@ -147,6 +148,7 @@ package allocation
 //@   requires allocWF(a) && permTimers(a) && chanTimers(a) && timersDisjoint(a)
 //@   requires chanBind != nil && chanBind.log != nil && chanBind.lifetimeTimer == nil
 //@   requires [C08:valid-number] validChan(int(chanBind.Number))
+//@   requires [C03:authed] authOK && a.userID == authUser
 //@   requires [C01:granted] granted[ipKey(chanBind.Peer)]
 //@   requires [C01:family] famOK(ipOf(chanBind.Peer), int(a.addressFamily))
 //@   ensures [C08:reject-errors] res == nil || res == ErrSamePeerDifferentChannel || res == ErrSameChannelDifferentPeer
@@ -190,3 +192,11 @@ package allocation
 //@   ensures res != nil ==> granted == old(granted)
 //@   ghost-set granted[ipStr(peerIP)] = true when res == nil
 //@   assigns granted
+
+//@      // ---- allocation lifetime (C06)
+//@ func (*Allocation).Refresh
+//@   requires [C03:authed] authOK && a.userID == authUser
+//@   requires a.lifetimeTimer != nil && a.log != nil
+//@   ensures [C06:refresh] timerSet(a.lifetimeTimer, lifetime)
+//@   ensures forall t :: t != a.lifetimeTimer ==> dur(t) == old(dur(t)) && armed(t) == old(armed(t))
+//@   assigns timers
